@@ -307,9 +307,16 @@ void gen_c20(Plan &p, Rng &r, bool thorough) {
       flags.push_back(r.coin() ? "-b" : "--breaks");
       flags.push_back(Ntext);
     }
+    int arglen = 10;  // "-r[=LEN] ... where LEN defaults to 10"
     if (run && !rnd) {
-      static const char *rf[] = {"-r=3", "-r3", "--return=2", "-r17"};
-      flags.push_back(r.chance(1, 3) ? rf[r.below(4)] : r.coin() ? "-r" : "--return");
+      static const char *rf[] = {"-r=3", "-r3", "--return=2", "-r17", "--return=12", "-r=1"};
+      static const int rl[] = {3, 3, 2, 17, 12, 1};
+      if (r.chance(1, 3)) {
+        size_t k = r.below(6);
+        flags.push_back(rf[k]);
+        arglen = rl[k];
+      } else
+        flags.push_back(r.coin() ? "-r" : "--return");
     }
     if (rnd) flags.push_back("--rand");
     // program
@@ -324,7 +331,31 @@ void gen_c20(Plan &p, Rng &r, bool thorough) {
         print = false;
       }
     }
-    if (run) {
+    if (run && !rnd && r.chance(1, 4)) {
+      // the documented calling environment: six pointers (rdi, rsi, rdx, rcx, r8, r9) to zero-initialised arrays of LEN
+      // 64-bit elements, which the code may dereference; stores into some elements, then one element is returned
+      static const char *regs[] = {"rdi", "rsi", "rdx", "rcx", "r8", "r9"};
+      auto slot = [&](int reg, int idx) {
+        char b[48];
+        if (idx == 0) snprintf(b, sizeof b, "[%s]", regs[reg]);
+        else snprintf(b, sizeof b, "[%s+0x%x]", regs[reg], idx * 8);
+        return std::string(b);
+      };
+      prog.push_back("; uses the argument arrays");
+      int stores = (int)r.range(1, 6);
+      std::vector<std::pair<int, int>> used;
+      for (int q = 0; q < stores; q++) {
+        int reg = (int)r.below(6), idx = r.chance(1, 3) ? arglen - 1 : (int)r.below((uint64_t)arglen);
+        char b[96];
+        snprintf(b, sizeof b, "mov qword %s, 0x%x", slot(reg, idx).c_str(), (unsigned)r.range(1, 0x7ffffffe));
+        prog.push_back(b);
+        used.emplace_back(reg, idx);
+        if (r.chance(1, 4)) prog.push_back(r.coin() ? "inc r10" : "mov r11, 0x11");  // (the pointer registers are left alone)
+      }
+      std::pair<int, int> rd = r.chance(2, 3) ? r.pick(used) : std::make_pair((int)r.below(6), (int)r.below((uint64_t)arglen));
+      prog.push_back("mov rax, " + slot(rd.first, rd.second));
+      prog.push_back(ltext(corpus_ret()));
+    } else if (run) {
       prog = exec_prog(r, nl);
     } else {
       for (int q = 0; q < nl; q++) {
